@@ -18,6 +18,10 @@ Three families of cases on the REAL FileStorage (DESIGN 4 C08):
               it with the real FileStorage.  [P] the reopened transaction list is the unpacked or the
               packed one, each with every commit that had returned before the cut (and at most those
               begun); index and log agree; the storage accepts a commit.  Model: Drivers/PackDisk.lean.
+ (d) mapping — MappingStorage (the property's first sentence is storage-generic): packer with gc ∥ committers
+              creating NEW objects ∥ reader under the scheduler (the gc sweep's reference callback is a yield
+              point), plus a deterministic commit started from inside that callback.  [P] every returned
+              commit present and complete, its new object loads, containers consistent.
  (c) fault  — inject an OSError at each raw mutating operation of a pack.  [P] pack raises (or the
               failure is harmless), the database is the unpacked or the packed one and usable: commit
               lock free, flag cleared (next pack not refused), loads work; `.pack` removed when the
@@ -1273,6 +1277,289 @@ def run_fault_scenario(ck, P, only=None):
 
 
 # ------------------------------------------------------------------------------------------------
+# (d) MappingStorage: the first sentence of the property is storage-generic
+# ------------------------------------------------------------------------------------------------
+def _mapping_setup(P, clk):
+    from ZODB.MappingStorage import MappingStorage
+    ms = MappingStorage()
+    db = ZODB.DB(ms)
+    c = db.open()
+    r = c.root()
+    for k in (1, 2):
+        r['K%d' % k] = PersistentMapping(count=0)
+    r['G'] = PersistentMapping(x=0)
+    transaction.commit()
+    for i in range(P.get('pre', 2)):
+        r['G']['x'] = i + 1
+        r['K1']['seed%d' % i] = PersistentMapping(v=i)
+        r['K1']['count'] = i + 1
+        transaction.commit()
+    del r['G']
+    transaction.commit()
+    t_mid = clk.now + 0.5
+    r['K2']['seed'] = PersistentMapping(v=0)
+    r['K2']['count'] = 1
+    transaction.commit()
+    c.close()
+    return ms, db, t_mid
+
+
+def _mapping_verify(ms, db, returned, T, reader_out):
+    """direct oracle: every returned commit is present, complete, and its new object loads"""
+    pr = []
+    txns = {}
+    for t in ms.iterator():
+        txns[t.tid] = set(r.oid for r in t)
+    for tid, k, name, v, oid in returned:
+        if tid not in txns:
+            pr.append(('lost-commit', 'commit %s of committer %d returned but is not in the storage' % (tid.hex(), k)))
+        elif oid not in txns[tid]:
+            pr.append(('incomplete-transaction', 'transaction %s lost the record of the object it created (%s)'
+                       % (tid.hex(), name)))
+        try:
+            ms.load(oid, '')
+        except POSKeyError:
+            pr.append(('lost-object', 'object %s created by a returned commit of committer %d does not load'
+                       % (name, k)))
+    c = db.open()
+    try:
+        r = c.root()
+        for k in (1, 2):
+            K = r['K%d' % k]
+            names = [n for n in K.keys() if n != 'count']
+            if K['count'] != len(names):
+                pr.append(('wrong-data', 'container K%d counts %d, holds %d' % (k, K['count'], len(names))))
+            for n in names:
+                try:
+                    K[n]['v']
+                except POSKeyError:
+                    pr.append(('lost-object', 'K%d[%r] is referenced but does not load (POSKeyError)' % (k, n)))
+    finally:
+        c.close()
+    for bound, vals in reader_out:
+        if isinstance(vals, str):
+            older = T is not None and u64(bytes.fromhex(bound)) - 1 <= u64(T)
+            if not (vals == 'raised:ReadConflictError' and older):
+                pr.append(('reader-error:%s' % vals.split(':')[1], 'snapshot %s: %s' % (bound, vals)))
+        elif not vals:
+            pr.append(('reader-inconsistent', 'snapshot %s: a container count differs from its children' % bound))
+    return pr
+
+
+def run_mapping_sched(P, tmp, schedule=None):
+    """1 packer (db.pack with gc) ∥ 1-2 committers creating NEW objects ∥ 1 reader on a MappingStorage under the
+    scheduler; the reference-following callback of the gc sweep is an extra yield point"""
+    obs = dict(P=P)
+    note = Note()
+    with clock.scripted() as clk, sched.installed():
+        ms, db, t_mid = _mapping_setup(P, clk)
+        real_refs = db.references
+
+        def refs(p, oids=None):
+            s = sched._current
+            if s is not None:
+                s.yield_point('gc', 'referencesf')
+            return real_refs(p, oids)
+        db.references = refs
+        returned = []
+        T = [None]
+
+        def packer():
+            t = t_mid if P.get('ptime') == 'mid' else clk.now + 0.5
+            T[0] = packtid(t)
+            note('attempt-start')
+            try:
+                db.pack(t)
+                o = 'ok'
+            except Exception as e:          # noqa: B902
+                o = 'raised:%s:%s' % (type(e).__name__, e)
+            note('attempt-end')
+            return o
+
+        def committer(k):
+            def f():
+                tm = transaction.TransactionManager()
+                c = db.open(tm)
+                out = []
+                for i in range(P.get('commits', 3)):
+                    name = 'n%d_%d' % (k, i)
+                    try:
+                        tm.begin()
+                        K = c.root()['K%d' % k]
+                        child = PersistentMapping(v=100 * k + i)
+                        K[name] = child
+                        K['count'] = K['count'] + 1
+                        tm.commit()
+                        returned.append((child._p_serial, k, name, 100 * k + i, child._p_oid))
+                        note('commit-returned')
+                        out.append('ok')
+                    except ConflictError:
+                        tm.abort()
+                        out.append('conflict')
+                    except Exception as e:      # noqa: B902
+                        try:
+                            tm.abort()
+                        except Exception:       # noqa: B902
+                            pass
+                        out.append('raised:%s:%s' % (type(e).__name__, e))
+                c.close()
+                return out
+            return f
+
+        def reader():
+            tm = transaction.TransactionManager()
+            c = db.open(tm)
+            out = []
+            for i in range(P.get('reads', 3)):
+                tm.begin()
+                bound = c._storage._start
+                try:
+                    ok = True
+                    for k in (1, 2):
+                        K = c.root()['K%d' % k]
+                        names = [n for n in K.keys() if n != 'count']
+                        for n in names:
+                            K[n]['v']
+                        ok = ok and K['count'] == len(names)
+                    out.append((bound.hex(), ok))
+                except Exception as e:          # noqa: B902
+                    out.append((bound.hex(), 'raised:%s' % type(e).__name__))
+                tm.abort()
+                c.cacheMinimize()
+            c.close()
+            return out
+
+        s = DirectedScheduler(seed=P['seed'], schedule=schedule, stickiness=P.get('stick', 0.5))
+        note.s = s
+        s.spawn('p', packer)
+        for k in range(1, P.get('committers', 1) + 1):
+            s.spawn('c%d' % k, committer(k))
+        if P.get('reads', 3):
+            s.spawn('r', reader)
+        res = s.run(timeout=60)
+        note.s = None
+        obs.update(deadlock=bool(res['deadlock']), results=res['results'], steps=res['steps'],
+                   decisions=res['decisions'])
+        problems = []
+        if res['errors']:
+            problems.append(('thread-error', repr(res['errors'])))
+        started = False
+        obs['nontrivial'] = False
+        for th, kind, label in res['events']:
+            if th == 'p' and kind == 'note' and label == 'attempt-start':
+                started = True
+            elif started and kind == 'note' and label == 'commit-returned':
+                obs['nontrivial'] = True
+        if not res['deadlock']:
+            for k in range(1, P.get('committers', 1) + 1):
+                for o in (res['results'].get('c%d' % k) or ['missing']):
+                    if o.startswith('raised') or o == 'missing':
+                        problems.append(('commit-error:%s' % (o.split(':')[1] if ':' in o else o), o))
+            if res['results'].get('p') != 'ok':
+                problems.append(('pack-error', str(res['results'].get('p'))))
+            try:
+                problems += _mapping_verify(ms, db, returned, T[0], res['results'].get('r') or [])
+            except Exception as e:          # noqa: B902
+                problems.append(('verify-raised:%s' % type(e).__name__, repr(e)))
+        db.close()
+    obs['problems'] = problems
+    return obs
+
+
+def run_mapping_callback(P):
+    """deterministic: a commit creating a new object is started from inside the reference-following callback of
+    the gc sweep (helper thread, real locks).  On a storage that holds its lock for the whole pack the commit
+    waits for the pack to end; either way it must be complete and loadable afterwards."""
+    from ZODB.MappingStorage import MappingStorage      # noqa: F401
+    with clock.scripted() as clk:
+        ms, db, t_mid = _mapping_setup(P, clk)
+        real_refs = db.references
+        returned, box, helper = [], {}, []
+
+        def commit_new():
+            tm = transaction.TransactionManager()
+            c = db.open(tm)
+            try:
+                K = c.root()['K1']
+                child = PersistentMapping(v=777)
+                K['during'] = child
+                K['count'] = K['count'] + 1
+                tm.commit()
+                returned.append((child._p_serial, 1, 'during', 777, child._p_oid))
+                box['commit'] = 'ok'
+            except Exception as e:          # noqa: B902
+                box['commit'] = 'raised:%s:%s' % (type(e).__name__, e)
+                tm.abort()
+            c.close()
+        calls = [0]
+
+        def refs(p, oids=None):
+            calls[0] += 1
+            if calls[0] == P.get('at', 2) and not helper:
+                th = threading.Thread(target=commit_new, daemon=True)
+                helper.append(th)
+                th.start()
+                th.join(0.3)
+                box['finished_during_sweep'] = not th.is_alive()
+            return real_refs(p, oids)
+        db.references = refs
+        t = t_mid if P.get('ptime') == 'mid' else clk.now + 0.5
+        T = packtid(t)
+        problems = []
+        try:
+            db.pack(t)
+        except Exception as e:              # noqa: B902
+            problems.append(('pack-error', '%s: %s' % (type(e).__name__, e)))
+        for th in helper:
+            th.join(10)
+            if th.is_alive():
+                problems.append(('lock-held', 'the commit started during the pack still blocks after it'))
+        if not helper:
+            problems.append(('callback-not-reached', 'the gc sweep made %d reference calls' % calls[0]))
+        elif box.get('commit') != 'ok' and not problems:
+            problems.append(('commit-error', str(box.get('commit'))))
+        if not problems:
+            problems += _mapping_verify(ms, db, returned, T, [])
+        db.close()
+    return dict(P=P, problems=problems, during=box.get('finished_during_sweep'))
+
+
+def run_mapping_case(ck, case):
+    P = case['P']
+    if case.get('mode') == 'callback':
+        o = run_mapping_callback(P)
+        ck.case(dict(kind='mapping', mode='callback', P=P), True,
+                sample=dict(kind='mapping', mode='callback', P=P, during=o['during']))
+        ck.count('mapping-callback:commit-%s' % ('finished-during-sweep' if o['during'] else 'waited-for-pack'))
+        if o['problems']:
+            sym, text = o['problems'][0]
+            ck.violation('C08:mapping:' + sym, 'commit started from the gc reference callback of '
+                         'MappingStorage.pack: ' + text, dict(kind='mapping', mode='callback', P=P))
+        return
+    o = run_mapping_sched(P, ck.tmp, case.get('schedule'))
+    ck.case(dict(kind='mapping', P=P), o['nontrivial'],
+            sample=dict(kind='mapping', P=P, results=o['results']) if o['nontrivial'] else None)
+    ck.count('mapping-sched-steps', o['steps'])
+    for k, v in (o['results'] or {}).items():
+        if k.startswith('c') and v:
+            for x in v:
+                ck.count('mapping-commit:%s' % x.split(':')[0])
+    if o['deadlock']:
+        ck.violation('C08:mapping:deadlock', 'deadlock while packing a MappingStorage',
+                     dict(kind='mapping', P=P, schedule=o['decisions']))
+    elif o['problems']:
+        sym, text = o['problems'][0]
+        ck.violation('C08:mapping:' + sym, 'MappingStorage pack under concurrent commits: ' + text,
+                     dict(kind='mapping', P=P, schedule=o['decisions'], all_problems=o['problems'][:5]))
+
+
+def gen_mapping_params(rng, i):
+    return dict(seed=rng.randrange(10 ** 9), stick=rng.choice([0.0, 0.3, 0.6, 0.9]), committers=rng.choice([1, 2]),
+                commits=rng.choice([2, 3, 4]), reads=rng.choice([0, 3]), ptime=rng.choice(['mid', 'now']),
+                pre=rng.choice([1, 2, 3]))
+
+
+# ------------------------------------------------------------------------------------------------
 # generators
 # ------------------------------------------------------------------------------------------------
 def gen_sched_params(rng, i):
@@ -1647,6 +1934,8 @@ def _run_case(ck, case):
         run_fault_scenario(ck, case['P'], only=case.get('fail_at'))
     elif kind == 'script':
         run_script_case(ck, case)
+    elif kind == 'mapping':
+        run_mapping_case(ck, case)
     else:
         raise InfraError('unknown case kind %r' % kind)
 
@@ -1684,6 +1973,10 @@ def main(argv=None):
         cases += [dict(kind='crash', P=gen_crash_params(ck.rng, i), thorough=bool(ck.thorough and i < 40))
                   for i in range(ncrash)]
         cases += [dict(kind='fault', P=gen_fault_params(ck.rng, i)) for i in range(nfault)]
+        nmap = 60 if not ck.thorough else 1500
+        cases += [dict(kind='mapping', P=gen_mapping_params(ck.rng, i)) for i in range(nmap)]
+        cases += [dict(kind='mapping', mode='callback', P=dict(ptime=pt, pre=pre, at=at))
+                  for pt in ('mid', 'now') for pre in (1, 3) for at in (1, 2, 4)]
     jobs = [(c, (ck.seed, i), ck.tmp, ck.thorough) for i, c in enumerate(cases)]
     if ck.thorough and len(jobs) > 1:
         import multiprocessing as mp
